@@ -152,6 +152,9 @@ namespace _fmt_basics {
 			c = locale_opts.grouping[g];
 
 		int final_width = max(k, precision) + extra;
+		// The sign character is part of the field.
+		if(negative || always_sign || plus_becomes_space)
+			final_width++;
 
 		if(!left_justify && final_width < width)
 			for(int i = 0; i < width - final_width; i++)
